@@ -1,8 +1,10 @@
 """Wall-clock guard for calls into real code that may block forever (used by C49/C50).
 
 ``with guard():`` raises ``Hang`` (a BaseException, so that ``except Exception`` in the code under test cannot swallow it) when
-the guarded call has made no progress: it used (almost) no CPU time during three consecutive timer ticks (0.3+0.5+0.5 s of
-wall time: it is *blocked*, e.g. waiting on a queue/lock), or it is still computing after 10 s.  A busy but progressing call is left alone (the timer re-arms).
+the guarded call has made no progress: it used (almost) no CPU time during five consecutive timer ticks (0.3+4*0.5 s of
+wall time: it is *blocked*, e.g. waiting on a queue/lock), or it has burnt 10 s of CPU time and is still computing ("busy").
+Both verdicts are load-independent: wall-clock time alone never decides (a descheduled process on a loaded machine neither
+accumulates CPU seconds nor stays below 10% CPU for 2.3 s while runnable). A busy but progressing call is left alone (the timer re-arms).
 Main thread only (signal based).
 """
 from __future__ import annotations
@@ -22,7 +24,8 @@ class Hang(BaseException):
 @contextmanager
 def guard(first=0.3, limit=10.0):
     t0 = time.monotonic()
-    state = {"t": t0, "c": time.process_time(), "idle": 0}
+    c0 = time.process_time()
+    state = {"t": t0, "c": c0, "idle": 0}
 
     def handler(signum, frame):
         now, cpu_now = time.monotonic(), time.process_time()
@@ -30,14 +33,14 @@ def guard(first=0.3, limit=10.0):
         idle = (cpu_now - state["c"]) < 0.1 * (now - state["t"])  # (almost) no CPU used during the last tick
         state["t"], state["c"] = now, cpu_now
         state["idle"] = state["idle"] + 1 if idle else 0
-        # blocked = three consecutive idle ticks (0.3 + 0.5 + 0.5 s) -- a merely descheduled process does not stay idle that long
-        if state["idle"] >= 3 or wall > limit:
+        # blocked = five consecutive idle ticks (2.3 s) -- a merely descheduled process does not stay idle that long; busy = 10 CPU seconds
+        if state["idle"] >= 5 or (cpu_now - c0) > limit:
             frames = []
             f = frame
             while f is not None and len(frames) < 40:
                 frames.append(f.f_code.co_filename + ":" + f.f_code.co_name)
                 f = f.f_back
-            raise Hang("blocked" if state["idle"] >= 3 else "busy", frames)
+            raise Hang("blocked" if state["idle"] >= 5 else "busy", frames)
         signal.setitimer(signal.ITIMER_REAL, 0.5)
 
     old = signal.signal(signal.SIGALRM, handler)
